@@ -136,32 +136,54 @@ func c33WarpProofValid(r *vhRng) []byte {
 	return b
 }
 
+// c33GrandpaView names the message kind by its index in the varying data type, then dumps it.
+func c33GrandpaView(m GrandpaMessage) string {
+	idx := "v?:"
+	switch m.(type) {
+	case *VoteMessage:
+		idx = "v0:"
+	case *CommitMessage:
+		idx = "v1:"
+	case *NeighbourPacketV1:
+		idx = "v2:v1:"
+	case *CatchUpRequest:
+		idx = "v3:"
+	case *CatchUpResponse:
+		idx = "v4:"
+	}
+	return idx + c33Dump(reflect.ValueOf(m).Elem())
+}
+
 var c33Kinds = []*c33Kind{
 	{name: "gmsg", // Service.decodeMessage (ConsensusMessage) then decodeMessage (GRANDPA message)
-		decode: func(in []byte) (string, func() ([]byte, error), error) {
+		recv: func() *c33Recv {
+			cm := new(network.ConsensusMessage)
+			var m GrandpaMessage
+			dec := func(in []byte) error {
+				if err := cm.Decode(in); err != nil {
+					return err
+				}
+				var err error
+				m, err = decodeMessage(cm)
+				return err
+			}
+			return &c33Recv{decode: dec, live: &c33Live{view: func() string { return c33GrandpaView(m) },
+				reenc: func() ([]byte, error) {
+					c, err := m.ToConsensusMessage()
+					if err != nil {
+						return nil, err
+					}
+					return c.Encode()
+				}}}
+		},
+		decode: func(in []byte) (*c33Live, error) {
 			nm, err := (&Service{}).decodeMessage(in)
 			if err != nil {
-				return "", nil, err
+				return nil, err
 			}
 			m, err := decodeMessage(nm.(*network.ConsensusMessage))
 			if err != nil {
-				return "", nil, err
-			}
-			// the dump names the message kind by its index in the varying data type
-			var idx string
-			switch m.(type) {
-			case *VoteMessage:
-				idx = "v0:"
-			case *CommitMessage:
-				idx = "v1:"
-			case *NeighbourPacketV1:
-				idx = "v2:v1:"
-			case *CatchUpRequest:
-				idx = "v3:"
-			case *CatchUpResponse:
-				idx = "v4:"
-			default:
-				idx = "v?:"
+				return nil, err
 			}
 			reenc := func() ([]byte, error) {
 				cm, err := m.ToConsensusMessage()
@@ -170,28 +192,38 @@ var c33Kinds = []*c33Kind{
 				}
 				return cm.Encode()
 			}
-			return idx + c33Dump(reflect.ValueOf(m).Elem()), reenc, nil
+			return &c33Live{view: func() string { return c33GrandpaView(m) }, reenc: reenc}, nil
 		},
 		valid: c33GrandpaValid,
 		scan:  c33NoScan, typ: reflect.TypeOf(grandpaMessage{})},
 	{name: "ghs",
-		decode: func(in []byte) (string, func() ([]byte, error), error) {
+		recv: func() *c33Recv {
+			m := &GrandpaHandshake{}
+			return &c33Recv{decode: m.Decode, live: &c33Live{view: func() string { return c33Dump(reflect.ValueOf(*m)) }, reenc: m.Encode}}
+		},
+		decode: func(in []byte) (*c33Live, error) {
 			h, err := (&Service{}).decodeHandshake(in)
 			if err != nil {
-				return "", nil, err
+				return nil, err
 			}
 			hs := h.(*GrandpaHandshake)
-			return c33Dump(reflect.ValueOf(*hs)), hs.Encode, nil
+			return &c33Live{view: func() string { return c33Dump(reflect.ValueOf(*hs)) }, reenc: hs.Encode}, nil
 		},
 		valid: func(r *vhRng) []byte { return []byte{byte(r.Pick(0, 1, 2, 4, 255))} },
 		scan:  c33NoScan},
 	{name: "wproof", // the decoding step of WarpSyncProofProvider.Verify
-		decode: func(in []byte) (string, func() ([]byte, error), error) {
+		recv: func() *c33Recv {
+			proof := new(WarpSyncProof)
+			return &c33Recv{decode: func(in []byte) error { return scale.Unmarshal(in, proof) },
+				live: &c33Live{view: func() string { return c33Dump(reflect.ValueOf(*proof)) },
+					reenc: func() ([]byte, error) { return scale.Marshal(*proof) }}}
+		},
+		decode: func(in []byte) (*c33Live, error) {
 			var proof WarpSyncProof
 			if err := scale.Unmarshal(in, &proof); err != nil {
-				return "", nil, err
+				return nil, err
 			}
-			return c33Dump(reflect.ValueOf(proof)), func() ([]byte, error) { return scale.Marshal(proof) }, nil
+			return &c33Live{view: func() string { return c33Dump(reflect.ValueOf(proof)) }, reenc: func() ([]byte, error) { return scale.Marshal(proof) }}, nil
 		},
 		valid: c33WarpProofValid,
 		scan: func(in []byte) uint64 {
